@@ -78,6 +78,7 @@ type pstate struct {
 	epoch   int                // bumped whenever an owned structure is modified
 	heapOwned map[string]*ownedRef
 	ufSeen  map[*smt.Term]int // applications of recursive specification functions whose definition is already among the hypotheses
+	frames  []*inlFrame       // inlined callees being executed (see inline.go)
 }
 
 type loopCtx struct {
@@ -100,6 +101,7 @@ func (p *pstate) fork() *pstate {
 		n.ghost[k] = v
 	}
 	n.defers = append([]deferred{}, p.defers...)
+	n.frames = append([]*inlFrame{}, p.frames...)
 	n.epoch = p.epoch
 	if p.owned != nil {
 		n.owned = make(map[int]*ownedCell, len(p.owned))
@@ -146,6 +148,7 @@ type exec struct {
 	behScope map[string]*scope
 	ownedN, ownedViol int
 	ownedParams []ownedParam
+	inlined  map[*ssa.Function]bool
 }
 
 type ownedParam struct {
@@ -389,8 +392,14 @@ func (x *exec) ufSeenOf(st *pstate) map[*smt.Term]int {
 func (x *exec) findLoops() {
 	x.loopOrd = map[*ssa.BasicBlock]int{}
 	x.loopBody = map[*ssa.BasicBlock]map[*ssa.BasicBlock]bool{}
+	x.findLoopsOf(x.fn, 0)
+}
+
+// findLoopsOf registers the loops of fn; their ordinals start at base (inlined callees get bases
+// 1000, 2000, ... so that the loop clauses of the contract under verification never apply to them).
+func (x *exec) findLoopsOf(fn *ssa.Function, base int) {
 	var headers []*ssa.BasicBlock
-	for _, b := range x.fn.Blocks {
+	for _, b := range fn.Blocks {
 		for _, s := range b.Succs {
 			if s.Dominates(b) {
 				if _, ok := x.loopBody[s]; !ok {
@@ -421,7 +430,7 @@ func (x *exec) findLoops() {
 	// that has one, falling back to block index (ssa creates blocks in source order).
 	sort.Slice(headers, func(i, j int) bool { return x.loopPos(headers[i]) < x.loopPos(headers[j]) })
 	for i, h := range headers {
-		x.loopOrd[h] = i
+		x.loopOrd[h] = base + i
 	}
 }
 
@@ -762,9 +771,15 @@ func (x *exec) check(st *pstate, ob, kind string, goal *smt.Term, pos token.Pos,
 
 func (x *exec) assignOrdinals() {
 	x.ord = map[ssa.Instruction]string{}
+	x.assignOrdinalsOf(x.fn, "")
+}
+
+// assignOrdinalsOf names the instructions of fn that can carry obligations; prefix distinguishes
+// the instructions of an inlined callee from those of the function under verification.
+func (x *exec) assignOrdinalsOf(fn *ssa.Function, prefix string) {
 	count := map[string]int{}
 	name := func(in ssa.Instruction, kind string) {
-		x.ord[in] = fmt.Sprintf("%s[%d]", kind, count[kind])
+		x.ord[in] = fmt.Sprintf("%s%s[%d]", prefix, kind, count[kind])
 		count[kind]++
 	}
 	// order instructions by source position where available, else by block order
@@ -775,7 +790,7 @@ func (x *exec) assignOrdinals() {
 	}
 	var items []item
 	seq := 0
-	for _, b := range x.fn.Blocks {
+	for _, b := range fn.Blocks {
 		last := token.NoPos
 		for _, in := range b.Instrs {
 			p := in.Pos()
